@@ -68,12 +68,18 @@ let () =
               | PVoid -> "v" | PInt z -> "i:" ^ dec_of_z z | PDouble f -> "d:" ^ hex_of_f64 f
               | PString (b, _) -> "s:" ^ String.concat "" (List.map (fun c -> Printf.sprintf "%02x" (int_of_z c)) b)) i) in
             let tbl = Hashtbl.create 16 in
+            let mtbl : (int * string, pout) Hashtbl.t = Hashtbl.create 16 in     (* (member, inputs) -> output *)
+            let nmembers = ref 0 in
             let ttbl = Hashtbl.create 16 in
             let exs = List.map (fun (x1, x2, t, d, o, tg) ->
               let inp = [parse_pout x1; parse_pout x2] in
               (* a team: the <out> column holds the members' outputs m1/m2/...; the
                  team's output is the running mean of the defined ones *)
-              let ov = if String.contains o '/' then team_out (List.map parse_pout (String.split_on_char '/' o))
+              let ov = if String.contains o '/' then begin
+                           let ms = List.map parse_pout (String.split_on_char '/' o) in
+                           List.iteri (fun k m -> Hashtbl.replace mtbl (k, key inp) m) ms;
+                           nmembers := List.length ms;
+                           team_out ms end
                        else parse_pout o in
               Hashtbl.replace tbl (key inp) ov;
               (if tg <> "-" then
@@ -97,7 +103,12 @@ let () =
               | Thrown d -> print_endline ("THROW " ^ show_diff d)
               | Undefined -> print_endline "UNDEFINED" in
             let ncls = nat_of_int (int_of_string classes) in
+            let mouts = List.init !nmembers (fun k -> fun i -> Hashtbl.find mtbl (k, key i)) in
+            let prt (o, tags) = pro tags o in
             (match kind with
+             | "binary" when !nmembers > 0 -> prt (binary_eval_team mouts exs)
+             | "dynslot" when !nmembers > 0 -> prt (dyn_slot_eval_team m_atan mouts ncls (nat_of_int 10) exs)
+             | "gaussian" when !nmembers > 0 -> prt (gaussian_eval_team m_exp mouts ncls exs)
              | "mae" -> prx (mae_err out) 1
              | "mse" -> prx (mse_err out) 1
              | "rmae" -> prx (rmae_err out) 1
